@@ -51,3 +51,8 @@ CHECKS["C12"] = {"pkg": "txn", "shards": 12,
     "technique": "property-based testing (rapid) of transaction.Create against a validity predicate (reference rules) and a completeness oracle over the offered set",
     "text": "Generated-input search: many correct outputs are possible, so the result is judged by a validity predicate - well formed and hard-valid under the reference model, inputs distinct and offered, receivers paid exactly, change amount and documented change address, automatic hours summing to the allotted amount and proportional, burn >= required fee - and failures must be user-level and, for 'insufficient', justified by the whole offered set.",
     "note": "trusted: harness/internal/ref/rules; burn factor = params.UserVerifyTxn; offered totals < 2^62 without accrual overflow"}
+
+CHECKS["C21"] = {"pkg": "codec", "shards": 12, "fuzz": [{"target": "FuzzC21_Decode", "seconds": 120}],
+    "technique": "three-way differential property-based testing (rapid, reflection-driven value and byte-string generators): generated codec vs reflection encoder vs independent reference encoder; native fuzzing of all decoders in thorough",
+    "text": "For each of the 29 generated codecs, generated values must encode to identical bytes and sizes under all three encoders and decode back; mutated and random byte strings must give the same error kind, consumed length and value under the generated and the reflection decoder; exact decoding must re-encode to the input; no decoder may panic.",
+    "note": "trusted: harness/internal/ref/enc (written from the encoder documentation); documented asymmetry accepted: the reflection encoder does not enforce maxlen on encode (package doc), the generated one does"}
